@@ -11,7 +11,11 @@ OK, VIOLATED, UNKNOWN = 'discharged', 'violated', 'unknown'
 # structure, arithmetic): their violations are exempt from the vocabulary guard
 ROBUST_RULES = ('PRED', 'ARGSWAP', 'DIVSAFE', 'SHARED', 'PURE', 'CACHEINV', 'NAMEUSE', 'ANGIDX', 'UNIQGUARD', 'NONETEST', 'FLAVOUR',
                 'SIGN', 'SELORDER', 'LAY', 'FIT', 'CHAIN', 'USE', 'POWNAME', 'TILE', 'DISPATCH', 'DECOMP', 'ENDPOINT', 'PAIR', 'REKEY', 'BIND', 'EXC',
-                'ECHO', 'SOLVERARG')
+                'ECHO', 'SOLVERARG', 'MUTDEFAULT', 'INDEXORDER', 'DUPROW', 'STARTDOM', 'UNIQLAST', 'NAMESPACE', 'LAYTOPS', 'SIMULFIRST', 'JUSTTEST')
+
+
+# rules that only take an inventory (evidence, no verdict): their instance count may change freely
+COUNT_EXEMPT = ('LOOPEXIT',)
 
 
 class Obligation(object):
@@ -127,6 +131,14 @@ class Run(object):
         # against is not believed (a rename is behaviour-preserving) -> unknown
         from . import vocab
         vt = vocab.load()
+        # instance counts confirmed on the reference tree (vocab.json, regenerated with the rules): a rule that finds fewer
+        # instances than it did there has lost sight of a construct (an `if found:` without an else passes silently otherwise)
+        for rule, want in sorted((vt.get('_counts', {}).get(self.pid, {}) if vt else {}).items()):
+            if rule in COUNT_EXEMPT: continue
+            n = len(set(o.key for o in self.obs if o.rule == rule and o.key != 'rule-aborted'))
+            if n < want and not any(o.rule == rule and o.key == 'instance-floor' for o in self.obs):
+                self.obs.append(Obligation(rule, 'instance-count', UNKNOWN, None,
+                                           'rule decided %d instances, %d on the reference tree: a construct it used to check is no longer found' % (n, want)))
         cache = {}
         for o in self.obs:
             if o.status != VIOLATED or o.robust: continue
